@@ -6,6 +6,7 @@ import Uom.Proofs.BodyEq.Mixed
 import Uom.Proofs.BodyEq.Cmp
 import Uom.Proofs.FloatOps
 import Uom.Proofs.OpsOracleSound
+import Uom.Proofs.MoreOracleSound
 /-!
 # C06 — results do not depend on the base units operands happen to be stored in
 
@@ -161,6 +162,26 @@ theorem oracle_accepts_kind_from (f : Fmt) (hf : f.WF) (h4 : 4 ≤ f.p) (l r a :
     (sameBase : Bool) (hsame : sameBase = true → l = r ∧ l.isFinite = true ∧ l.isZero = false) (why : String) :
     oracleFromFl f sameBase l r a (kindFromOn (flS f) l r a) ≠ .fail why :=
   Proofs.oracleFromFl_sound hf h4 hca sameBase hsame why
+
+/-- the fused multiply-add oracle (`mad.oracle`: `x.mul_add(a, b)` with all three operands in their own base
+    units) never rejects the model — for **every** input, with no canonical-form or finiteness hypothesis
+    (the oracle guards those itself).  The proof needed a standard model of `fma` (`Proofs.MoreOracleSound.fma_rel`)
+    and exposed why the oracle must guard a zero result whose exact value is below half the least subnormal
+    (`oracle_mul_add_underflow_witness`). -/
+theorem oracle_accepts_mul_add_f64 (la ra lb rb x a b : Fl) (why : String) :
+    oracleMulAdd b64 la ra lb rb x a b (mulAddOn b64 la ra lb rb x a b) ≠ .fail why :=
+  Proofs.MoreOracleSound.oracleMulAdd_sound_f64 la ra lb rb x a b why
+theorem oracle_accepts_mul_add_f32 (la ra lb rb x a b : Fl) (why : String) :
+    oracleMulAdd b32 la ra lb rb x a b (mulAddOn b32 la ra lb rb x a b) ≠ .fail why :=
+  Proofs.MoreOracleSound.oracleMulAdd_sound_f32 la ra lb rb x a b why
+theorem oracle_mul_add_underflow_witness :
+    Proofs.MoreOracleSound.isGuard (oracleMulAdd b32 Proofs.MoreOracleSound.cexMad.l Proofs.MoreOracleSound.cexMad.l
+      Proofs.MoreOracleSound.cexMad.l Proofs.MoreOracleSound.cexMad.l Proofs.MoreOracleSound.cexMad.x
+      Proofs.MoreOracleSound.cexMad.a Proofs.MoreOracleSound.cexMad.b
+      (mulAddOn b32 Proofs.MoreOracleSound.cexMad.l Proofs.MoreOracleSound.cexMad.l Proofs.MoreOracleSound.cexMad.l
+        Proofs.MoreOracleSound.cexMad.l Proofs.MoreOracleSound.cexMad.x Proofs.MoreOracleSound.cexMad.a
+        Proofs.MoreOracleSound.cexMad.b)) = true :=
+  Proofs.MoreOracleSound.oracleMulAdd_guards_underflow
 
 /-- the oracle as first written could reject the model: `a + change_base(b)` overflows to `+∞` while the
     exact sum is still 0.62 u below `MAX` (binary32 witness; `−`, `×`, `÷` have witnesses too) -/
